@@ -1,7 +1,7 @@
 (** C07 — The thread pool never deadlocks, loses a wake-up or leaks workers.
     Statements only; each closed by [exact] of a lemma in Proofs/Pool*.v.
     See Properties/C06.v for what [reachable code_cfg scr s] quantifies over. *)
-From DivanV Require Import Base.Res Generated.Consts Model.Pool Proofs.Pool Proofs.PoolLive Proofs.PoolExamples.
+From DivanV Require Import Base.Res Generated.Consts Model.Pool Proofs.Pool Proofs.PoolLive Proofs.PoolEnabled.
 Import PoolM.
 
 (** Obligation on the generated constants ([== 1], [while], [> 0]). *)
